@@ -102,8 +102,6 @@ func (s *Sched) Yield(point, key string) {
 	<-p.grant
 }
 
-var waitingStates = []string{"chan send", "chan receive", "select", "semacquire", "sync.Cond.Wait", "sync.Mutex.Lock", "sync.WaitGroup.Wait", "IO wait", "sleep", "GC ", "finalizer wait", "force gc", "sync.RWMutex", "debug call", "syscall", "trace reader", "chan send (nil chan)", "chan receive (nil chan)", "select (no cases)"}
-
 // settled reports whether every goroutine except the caller is waiting, and returns the ids
 // of the goroutines blocked somewhere other than our yield points together with their state.
 func (s *Sched) settled() (bool, map[int64]string) {
@@ -139,25 +137,22 @@ func (s *Sched) settled() (bool, map[int64]string) {
 			// it announced itself parked; it may still be on its way into the receive
 			continue
 		}
+		user := strings.Contains(blk, "panrpc") || strings.Contains(blk, "verif/harness") || strings.Contains(blk, "main.")
+		if !user {
+			continue // runtime / system goroutines (GC workers, finalizer, signal handling …) are not part of the program under test
+		}
+		// a user goroutine counts as settled only in a state it cannot leave by itself
 		waiting := false
-		for _, w := range waitingStates {
+		for _, w := range []string{"chan send", "chan receive", "select", "semacquire", "sync.Cond.Wait", "sync.Mutex.Lock", "sync.RWMutex", "sync.WaitGroup.Wait", "IO wait"} {
 			if strings.HasPrefix(st, w) {
 				waiting = true
 			}
 		}
 		if !waiting {
-			// runtime/system goroutines that are idle show as waiting; anything running/runnable means not settled
-			ok = false
+			ok = false // running, runnable, sleeping, GC assist wait, preempted, syscall …: it will move on by itself
 			continue
 		}
-		// sleeping goroutines will wake up by themselves: not settled
-		if strings.HasPrefix(st, "sleep") {
-			ok = false
-			continue
-		}
-		if strings.Contains(blk, "panrpc") || strings.Contains(blk, "verif/harness") {
-			blocked[id] = st
-		}
+		blocked[id] = st
 	}
 	return ok, blocked
 }
